@@ -255,6 +255,26 @@ func (e *Engine) callFunc(fr *frame, ins ssa.Instruction, fn *ssa.Function, args
 		}
 	}
 	inLoop := ins != nil && ins.Block() != nil && e.innermost(fr, ins.Block()) != nil
+	// ... and under "name#k": the k-th call site of that callee in the function under contract, in
+	// source order (for a function that calls the same callee at several places, some of them in loops)
+	if ins != nil {
+		var sites []token.Pos
+		for _, b := range fr.fn.Blocks {
+			for _, in := range b.Instrs {
+				if ci, ok := in.(ssa.CallInstruction); ok {
+					if f := ci.Common().StaticCallee(); f != nil && (f == fn || (f.Origin() != nil && f.Origin() == fn.Origin())) {
+						sites = append(sites, in.Pos())
+					}
+				}
+			}
+		}
+		sort.Slice(sites, func(a, b int) bool { return sites[a] < sites[b] })
+		for k, p := range sites {
+			if p == ins.Pos() {
+				keys = append(keys, fmt.Sprintf("%s#%d", name, k))
+			}
+		}
+	}
 	for _, key := range keys {
 		rec := &callRecord{called: reach, ret: ret, resT: resT, args: append([]Val{}, args...), inLoop: inLoop}
 		for _, p := range fn.Params {
